@@ -53,8 +53,8 @@ end Lal.Nalu
 
 namespace Lal.Rtp
 
-theorem packNal_np (hevc : Bool) (nal : Bytes) : NoPanic (packNal hevc nal 1200) := by
+theorem packNal_np (hevc : Bool) (nal : Bytes) : NoPanicB (packNal hevc nal 1200) := by
   unfold packNal
-  cases hevc <;> simp <;> (repeat' split) <;> first | exact NoPanic.ok _ | (simp_all [fuHeaderSize]; done)
+  cases hevc <;> simp <;> (repeat' split) <;> first | exact NoPanicB.ok _ | (simp_all [fuHeaderSize]; done)
 
 end Lal.Rtp
